@@ -52,12 +52,41 @@ class Alt(T):
 
 
 class Star(T):
-    def __init__(self, item, src=None):
+    def __init__(self, item, src=None, minn=0):
         self.item = item
         self.src = src
+        self.minn = minn
 
     def __repr__(self):
-        return 'Star(%r)' % (self.item,)
+        return '%s(%r)' % ('Plus' if self.minn else 'Star', self.item)
+
+
+class Refine(T):
+    """the strings of `term` for which the predicate `test` (on the expression text `var`) is `pol`"""
+
+    def __init__(self, term, test, var, pol):
+        self.term, self.test, self.var, self.pol = term, test, var, pol
+
+    def __repr__(self):
+        return 'Refine(%r | %s%s)' % (self.term, '' if self.pol else 'not ', norm(self.test))
+
+
+class RStrip(T):
+    def __init__(self, term, chars):
+        self.term, self.chars = term, chars
+
+    def __repr__(self):
+        return 'RStrip(%r, %r)' % (self.term, self.chars)
+
+
+class AccMark(T):
+    """start-of-iteration value of an accumulator inside a loop body"""
+
+    def __init__(self, name):
+        self.name = name
+
+    def __repr__(self):
+        return 'AccMark(%s)' % self.name
 
 
 class Join(T):
@@ -111,6 +140,16 @@ class Closure:
 class IntUnknown:
     def __init__(self, path):
         self.path = path
+
+
+class Opaque:
+    """a value the template domain does not track"""
+
+    def __init__(self, why=''):
+        self.why = why
+
+    def __repr__(self):
+        return 'Opaque(%s)' % self.why
 
 
 # shapes: ('str',) ('bool',) ('opt', shape) ('list', shape) ('tuple', [shapes]) ('rec', {field: shape})
@@ -172,10 +211,12 @@ def _nt(node, why=''):
 
 
 class Interp:
-    def __init__(self, decisions, cls=None, call_hook=None, depth=4):
+    def __init__(self, decisions, cls=None, call_hook=None, depth=4, cond_hook=None, subscript_hook=None):
         self.dec = decisions          # key -> bool
         self.cls = cls                # class name for private-name mangling / self fields
         self.call_hook = call_hook
+        self.cond_hook = cond_hook            # (interp, test, env) -> bool | NotImplemented
+        self.subscript_hook = subscript_hook  # (interp, node, env) -> value | NotImplemented
         self.depth = depth
         self.preds = []               # (slot_path, test_ast, varname_text, polarity) refinements of this world
         self.yields = []
@@ -243,6 +284,14 @@ class Interp:
             if isinstance(l, ListOf) or isinstance(r, ListOf):
                 raise _nt(e, '(list concatenation)')
             return cat(self.as_str(l, e), self.as_str(r, e))
+        if isinstance(e, ast.BinOp) and isinstance(e.op, ast.Mult):
+            l, r = self.ev_soft(e.left, env), self.ev_soft(e.right, env)
+            for a, b in ((l, r), (r, l)):
+                if isinstance(a, Lit) and not isinstance(b, (T, ListOf)):
+                    if isinstance(b, int) and not isinstance(b, bool):
+                        return Lit(a.v * b)
+                    return Star(a)
+            raise _nt(e, '(multiplication)')
         if isinstance(e, ast.BinOp) and isinstance(e.op, ast.Mod):
             fmt = self.ev(e.left, env)
             if not isinstance(fmt, Lit):
@@ -276,6 +325,10 @@ class Interp:
         if isinstance(e, ast.IfExp):
             return self.ev(e.body if self.cond(e.test, env) else e.orelse, env)
         if isinstance(e, ast.Subscript):
+            if self.subscript_hook is not None:
+                r = self.subscript_hook(self, e, env)
+                if r is not NotImplemented:
+                    return r
             base = self.resolve(self.ev(e.value, env))
             try:
                 key = ast.literal_eval(e.slice)
@@ -310,6 +363,11 @@ class Interp:
         if isinstance(e, ast.List):
             if not e.elts:
                 return ListOf(None, 'local')
+            if len(e.elts) == 1:
+                lo = ListOf(self.ev(e.elts[0], env), 'literal')
+                lo.nonempty = True
+                lo.exact_one = True
+                return lo
             raise _nt(e, '(list literal)')
         if isinstance(e, ast.Tuple):
             return tuple(self.ev(x, env) for x in e.elts)
@@ -320,6 +378,15 @@ class Interp:
         if isinstance(e, (ast.Compare, ast.BoolOp)):
             return self.cond(e, env)
         raise _nt(e)
+
+    def ev_soft(self, e, env):
+        """like ev, but expressions outside the vocabulary evaluate to Opaque"""
+        try:
+            return self.ev(e, env)
+        except (World, Raised):
+            raise
+        except AnalysisError as x:
+            return Opaque(str(x)[:60])
 
     def as_str(self, v, node):
         v = self.resolve(v)
@@ -339,7 +406,15 @@ class Interp:
             r = self.call_hook(self, e, env)
             if r is not NotImplemented:
                 return r
+        if norm(f) in ('io.StringIO', 'StringIO') and not e.args:
+            return Lit('')
         if isinstance(f, ast.Attribute):
+            if f.attr == 'getvalue' and not e.args and isinstance(f.value, ast.Name) and isinstance(env.get(f.value.id), T):
+                return env[f.value.id]
+            if f.attr in ('rstrip',) and len(e.args) == 1 and isinstance(e.args[0], ast.Constant) and isinstance(e.args[0].value, str):
+                v = self.ev(f.value, env)
+                if isinstance(v, T):
+                    return RStrip(v, e.args[0].value)
             if f.attr == 'join' and len(e.args) == 1:
                 sep = self.ev(f.value, env)
                 arg = self.ev(e.args[0], env)
@@ -424,7 +499,7 @@ class Interp:
             if isinstance(n, ast.Lambda):
                 return self.ev(n.body, env)
             r = self.run(n.body, env)
-            return r[1] if r is not None else NONE
+            return r[1] if r is not None and r[0] == 'return' else NONE
         finally:
             self.depth += 1
 
@@ -450,6 +525,21 @@ class Interp:
             return r if isinstance(test.ops[0], ast.IsNot) else not r
         if isinstance(test, ast.Constant):
             return bool(test.value)
+        if self.cond_hook is not None:
+            r = self.cond_hook(self, test, env)
+            if r is not NotImplemented:
+                return r
+        # predicate on the content of one string-valued local (flow-sensitive refinement)
+        tn = self._term_names_in(test, env)
+        if tn is not None:
+            name, val = tn
+            key = ('pred', 'term:%s' % name, norm(test), getattr(test, 'lineno', 0))
+            r = self.decide(key, '%s on local %s' % (norm(test), name))
+            if isinstance(val, Slot):
+                self.preds.append((val.path, test, name, r))
+            else:
+                env[name] = Refine(val, test, name, r)
+            return r
         # value-level evaluation
         slots = self._slots_in(test, env)
         if len(slots) == 1:
@@ -471,6 +561,20 @@ class Interp:
         if isinstance(v, Lit):
             return bool(v.v)
         raise _nt(test, '(condition outside the template vocabulary)')
+
+    def _term_names_in(self, test, env):
+        """(name, term) when `test` mentions exactly one plain local name bound to a template term, every
+        other leaf being a constant, and the predicate is in the pred_lang vocabulary"""
+        names = {n.id for n in ast.walk(test) if isinstance(n, ast.Name) and isinstance(env.get(n.id), T)}
+        others = [n for n in ast.walk(test) if isinstance(n, ast.Name) and n.id not in names and n.id not in ('len',)]
+        if len(names) != 1 or others:
+            return None
+        if any(isinstance(n, ast.Attribute) and not (isinstance(n.value, ast.Name) and n.value.id in names) for n in ast.walk(test)):
+            return None
+        name = next(iter(names))
+        if isinstance(env[name], Slot) and False:
+            return None
+        return name, env[name]
 
     def _slots_in(self, test, env):
         """sub-expressions (names / attribute chains / subscripts with constant keys) of `test`
@@ -526,7 +630,7 @@ class Interp:
         raise _nt(target, '(assignment target)')
 
     def run(self, body, env):
-        """returns ('return', value) or None (fell through)"""
+        """returns ('return', value) / ('continue', None) or None (fell through)"""
         for st in body:
             r = self.exec(st, env)
             if r is not None:
@@ -543,10 +647,26 @@ class Interp:
             return None
         if isinstance(st, ast.Assign) and len(st.targets) == 1:
             tgt = st.targets[0]
-            if isinstance(tgt, (ast.Name, ast.Tuple)):
+            if isinstance(tgt, ast.Name):
+                env[tgt.id] = self.ev_soft(st.value, env)
+                return None
+            if isinstance(tgt, ast.Tuple):
                 self.bind(tgt, self.ev(st.value, env), env)
                 return None
             raise _nt(st)
+        if isinstance(st, ast.Try) and not st.finalbody:
+            # the body either raises one of the handled exceptions (handler runs instead) or completes
+            k = ('try', st.lineno)
+            if self.decide(k, 'try block at line %d raises' % st.lineno):
+                if len(st.handlers) != 1:
+                    raise _nt(st, '(several handlers)')
+                return self.run(st.handlers[0].body, env)
+            r = self.run(st.body, env)
+            if r is not None:
+                return r
+            return self.run(st.orelse, env)
+        if isinstance(st, ast.Continue):
+            return ('continue', None)
         if isinstance(st, ast.AnnAssign) and isinstance(st.target, ast.Name) and st.value is not None:
             env[st.target.id] = self.ev(st.value, env)
             return None
@@ -577,6 +697,10 @@ class Interp:
                     and isinstance(env.get(f.value.id), T) and len(c.args) == 1:
                 env[f.value.id] = cat(env[f.value.id], self.as_str(self.ev(c.args[0], env), st))
                 return None
+            if isinstance(f, ast.Attribute) and f.attr == 'append' and isinstance(f.value, ast.Name) \
+                    and isinstance(env.get(f.value.id), ListOf) and hasattr(env[f.value.id], 'items') and len(c.args) == 1:
+                env[f.value.id].items.append(self.as_str(self.ev(c.args[0], env), st))
+                return None
             if self.call_hook is not None:
                 r = self.call_hook(self, c, env)
                 if r is not NotImplemented:
@@ -584,40 +708,110 @@ class Interp:
             raise _nt(st, '(call statement)')
         raise _nt(st)
 
+    def local_worlds(self, fn):
+        """run fn() under every combination of the decisions that are first asked inside it;
+        returns [(result, decisions)] of the non-raising combinations"""
+        results = []
+        stack = [{}]
+        saved = self.dec
+        n = 0
+        while stack:
+            extra = stack.pop()
+            n += 1
+            if n > 512:
+                self.dec = saved
+                raise AnalysisError('too many local worlds in a loop body')
+            self.dec = {**saved, **extra}
+            mark = len(self.preds)
+            try:
+                results.append((fn(), extra))
+            except World as q:
+                if q.args[0] in saved:
+                    self.dec = saved
+                    raise
+                stack.append({**extra, q.args[0]: True})
+                stack.append({**extra, q.args[0]: False})
+                del self.preds[mark:]
+            except Raised:
+                del self.preds[mark:]
+            finally:
+                self.dec = saved
+        return results
+
     def exec_for(self, st, env):
         if st.orelse:
             raise _nt(st, '(for/else)')
-        lst = self.ev(st.iter, env)
-        lst = self.resolve(lst)
+        lst = self.resolve(self.ev(st.iter, env))
         if not isinstance(lst, ListOf):
             raise _nt(st, '(loop over non-list %r)' % (lst,))
-        env2 = dict(env)
-        self.bind(st.target, self.item_of(lst), env2)
-        # pattern A: every statement is ACC += expr (same ACC)          -> ACC . Star(contribution)
-        # pattern B: single statement ACC.append(expr), ACC an empty list  -> ACC = ListOf(expr)
-        if len(st.body) == 1 and isinstance(st.body[0], ast.Expr) and isinstance(st.body[0].value, ast.Call):
-            c = st.body[0].value
-            if isinstance(c.func, ast.Attribute) and c.func.attr == 'append' and isinstance(c.func.value, ast.Name) \
-                    and len(c.args) == 1:
-                acc = c.func.value.id
-                cur = env.get(acc)
-                if isinstance(cur, ListOf) and cur.item is None:
-                    env[acc] = ListOf(self.ev(c.args[0], env2), lst.src)
-                    return None
+        if lst.item is None:
+            return None
+        # accumulators: string-valued / list-valued locals modified in the body
+        mod = set()
+        for n in ast.walk(st):
+            if isinstance(n, ast.AugAssign) and isinstance(n.target, ast.Name):
+                mod.add(n.target.id)
+            if isinstance(n, ast.Call) and isinstance(n.func, ast.Attribute) and n.func.attr in ('write', 'append') \
+                    and isinstance(n.func.value, ast.Name):
+                mod.add(n.func.value.id)
+            if isinstance(n, ast.Assign):
+                for t in n.targets:
+                    for x in ast.walk(t):
+                        if isinstance(x, ast.Name) and isinstance(env.get(x.id), T) and x.id in env:
+                            pass
+        sacc = [a for a in mod if isinstance(env.get(a), T)]
+        lacc = [a for a in mod if isinstance(env.get(a), ListOf)]
+        for a in lacc:
+            if env[a].item is not None:
                 raise _nt(st, '(append to a non-empty list)')
-        accs, contrib = set(), []
-        for b in st.body:
-            if isinstance(b, ast.AugAssign) and isinstance(b.op, ast.Add) and isinstance(b.target, ast.Name):
-                accs.add(b.target.id)
-                contrib.append(self.as_str(self.ev(b.value, env2), b))
+
+        def body():
+            env2 = dict(env)
+            self.bind(st.target, self.item_of(lst), env2)
+            for a in sacc:
+                env2[a] = AccMark(a)
+            for a in lacc:
+                env2[a] = ListOf(None, 'acc')
+                env2[a].items = []
+            r = self.run(st.body, env2)
+            if r is not None and r[0] != 'continue':
+                raise _nt(st, '(return/break inside a loop)')
+            out = {}
+            for a in sacc:
+                v = env2[a]
+                if isinstance(v, AccMark):
+                    out[a] = Lit('')
+                elif isinstance(v, Cat) and isinstance(v.items[0], AccMark) and not any(isinstance(x, AccMark) for x in v.items[1:]):
+                    out[a] = cat(*v.items[1:])
+                else:
+                    raise _nt(st, '(accumulator %s is not only appended to)' % a)
+            for a in lacc:
+                out[a] = list(env2[a].items)
+            return out
+        res = self.local_worlds(body)
+        if not res:
+            raise Raised('every iteration raises')
+        nonempty = getattr(lst, 'nonempty', False)
+        for a in sacc:
+            contribs = []
+            for out, _ in res:
+                if not any(repr(out[a]) == repr(c) for c in contribs):
+                    contribs.append(out[a])
+            item = contribs[0] if len(contribs) == 1 else Alt(contribs)
+            if getattr(lst, 'exact_one', False):
+                env[a] = cat(self.as_str(env[a], st), item)
             else:
-                raise _nt(b, '(loop body outside the accumulation patterns)')
-        if len(accs) != 1:
-            raise _nt(st, '(several accumulators)')
-        acc = accs.pop()
-        if acc not in env:
-            raise _nt(st, '(accumulator unbound)')
-        env[acc] = cat(self.as_str(env[acc], st), Star(cat(*contrib), lst.src))
+                env[a] = cat(self.as_str(env[a], st), Star(item, lst.src, 1 if nonempty else 0))
+        for a in lacc:
+            alts = []
+            for out, _ in res:
+                if len(out[a]) == 1:
+                    if not any(repr(out[a][0]) == repr(c) for c in alts):
+                        alts.append(out[a][0])
+                elif len(out[a]) > 1:
+                    raise _nt(st, '(several appends per iteration)')
+            if alts:
+                env[a] = ListOf(alts[0] if len(alts) == 1 else Alt(alts), lst.src)
         return None
 
 
@@ -708,6 +902,11 @@ def pred_lang(test, var, alpha):
                     return rl(p)
                 if isinstance(op, ast.NotEq):
                     return rl('.{%d}' % n).complement()
+        if isinstance(t, ast.Call) and isinstance(t.func, ast.Attribute) and t.func.attr == 'startswith' and len(t.args) == 1 \
+                and isinstance(t.args[0], ast.Constant) and isinstance(t.args[0].value, str) and isinstance(t.func.value, ast.Call) \
+                and isinstance(t.func.value.func, ast.Attribute) and t.func.value.func.attr in ('lstrip', 'strip') \
+                and not t.func.value.args and norm(t.func.value.func.value) == var and t.args[0].value and not t.args[0].value[0].isspace():
+            return rl(r'\s*' + re.escape(t.args[0].value) + '.*')
         if isinstance(t, ast.Call) and isinstance(t.func, ast.Attribute) and norm(t.func.value) == var and len(t.args) == 1 \
                 and isinstance(t.args[0], ast.Constant) and isinstance(t.args[0].value, str):
             c = re.escape(t.args[0].value)
@@ -798,11 +997,20 @@ class TBuilder:
                 self.eps[self.term(x, a, in_repeat)].append(end)
             return end
         if isinstance(t, Star):
+            if t.minn:
+                cur = self.term(t.item, cur, True)
             loop = self.new()
             self.eps[cur].append(loop)
             e = self.term(t.item, loop, True)
             self.eps[e].append(loop)
             return loop
+        if isinstance(t, Refine):
+            base = TBuilder(self.alpha, [], self.slot_lang, {}).lang(t.term)
+            pl = pred_lang(t.test, t.var, self.alpha)
+            return self.embed(cur, base.intersect(pl if t.pol else pl.complement()))
+        if isinstance(t, RStrip):
+            base = TBuilder(self.alpha, [], self.slot_lang, {}).lang(t.term)
+            return self.embed(cur, rstrip_lang(base, t.chars))
         if isinstance(t, Join):
             def inner(c):
                 first = self.term(t.item, c, True)
@@ -855,6 +1063,25 @@ class TBuilder:
         return rx._determinise(self.alpha, self.markers, closure({s0}), step, lambda S: acc in S)
 
 
+def rstrip_lang(lang, chars):
+    """{ w.rstrip(chars) : w in lang }"""
+    alpha = lang.alpha
+    cs = [alpha.idx[c] for c in chars]
+    fin = {q for q, a in enumerate(lang.acc) if a}
+    changed = True
+    while changed:
+        changed = False
+        for q in range(len(lang.trans)):
+            if q not in fin and any(lang.trans[q][c] in fin for c in cs):
+                fin.add(q)
+                changed = True
+
+    def step(S, sym):
+        q, endc = S
+        return (lang.trans[q][sym], sym in cs)
+    return rx.from_function(alpha, [], (0, False), step, lambda S: S[0] in fin and not S[1])
+
+
 def template_langs(term, alpha, slot_lang, tags, groups):
     """(marked, erased) automata of a template term; groups = ordered marker group names"""
     markers = [(k, g) for g in groups for k in ('open', 'close')]
@@ -872,6 +1099,8 @@ def slots_of(term, out=None):
             slots_of(x, out)
     elif isinstance(term, Star):
         slots_of(term.item, out)
+    elif isinstance(term, (Refine, RStrip)):
+        slots_of(term.term, out)
     elif isinstance(term, Join):
         slots_of(term.sep, out)
         slots_of(term.item, out)
@@ -888,7 +1117,11 @@ def show(term):
     if isinstance(term, Alt):
         return '(' + ' | '.join(show(x) for x in term.items) + ')'
     if isinstance(term, Star):
-        return '(%s)*' % show(term.item)
+        return '(%s)%s' % (show(term.item), '+' if term.minn else '*')
+    if isinstance(term, Refine):
+        return '[%s | %s%s]' % (show(term.term), '' if term.pol else 'not ', norm(term.test))
+    if isinstance(term, RStrip):
+        return 'rstrip(%s, %r)' % (show(term.term), term.chars)
     if isinstance(term, Join):
         return 'join(%s; %s)' % (show(term.sep), show(term.item))
     return repr(term)
